@@ -17,7 +17,9 @@ RULE = ("cover-labelled networks of 1-5 motifs (edge, path, triangle, 4-cycle, d
         "bow-tie-free gluing: motifs pairwise share at most one vertex; trees, chains and rings of motifs, several "
         "components, isolated vertices) on <= 18 arbitrarily labelled vertices with shuffled node / edge insertion "
         "order; iterations in {0,1,2,3}; histories of 1-6 dyadic phi in [0,1] in shuffled order (0 and 1 included, "
-        "repeats allowed) on ONE object, plus a fresh object per phi; malformed: the empty network. Non-trivial = at "
+        "repeats allowed) on ONE object, plus a fresh object per phi; in 40% of the cases a decoy object (same vertex sets "
+        "and motif IDs, every motif a path) is alive and queried between the queries; 12% hub networks (one vertex in "
+        "9-12 motifs); labels up to 1000; malformed: the empty network. Non-trivial = at "
         "least two motifs share a vertex, iterations >= 1 and some 0 < phi < 1; distinct by (motifs, order, T, phis)")
 EXHAUSTIVE = {"quick": False, "thorough": False}
 EXPLANATION = ("all C17 theorems are general (any network, any sweep order, any T): model = spec when the motif "
@@ -85,7 +87,7 @@ def _build(rng, shapes, labels, glue="random", extra_nodes=0, p2=0.3):
         if motifs and glue != "disjoint":
             # choose 1 (sometimes 2) attachment vertices belonging to DIFFERENT existing motifs
             cand = list(used)
-            a = rng.choice(cand)
+            a = used[0] if glue == "hub" else rng.choice(cand)
             mapping[local[0]] = a
             if len(motifs) >= 2 and rng.random() < (1.0 if (glue == "ring" and k == len(shapes) - 1) else p2):
                 ma = set(pairs_shared[a])
@@ -146,6 +148,7 @@ def corpus():
     # two triangles sharing a vertex; the classic
     c = _build(rng, ["triangle", "triangle"], range(5), glue="chain")
     out.append(dict(c, T=2, phis=[[1, 2], [0, 1], [1, 1], [1, 4], [1, 2]]))
+    out.append(dict(c, T=1, phis=[[1, 2], [1, 4], [1, 2]], decoy=True))
     # single motifs
     for sh in ["edge", "triangle", "diamond", "k4", "cycle5"]:
         c = _build(rng, [sh], range(6))
@@ -177,8 +180,15 @@ def generate(rng, tier):
         glue = rng.choice(["chain", "random", "ring", "ring", "disjoint" if k <= 2 else "ring"])
         if glue == "ring" and rng.random() < 0.4:
             shapes = [rng.choice(["edge", "edge", "triangle", "path3"]) for _ in range(rng.randint(3, 6))]
-        c = _build(rng, shapes, range(24), glue=glue, extra_nodes=rng.choice([0, 0, 1, 2]), p2=rng.choice([0.0, 0.3, 0.6]))
-        T = rng.choice([0, 1, 1, 2, 2, 3])
+        labels = list(range(24)) + [31, 32, 33, 64, 65, 100, 129, 257, 1000]
+        if rng.random() < 0.12:
+            # a hub vertex that belongs to 9-12 motifs (more than 8 entries in the done_motifs sets)
+            shapes = [rng.choice(["edge", "edge", "triangle", "path3"]) for _ in range(rng.randint(9, 12))]
+            glue = "hub"
+        c = _build(rng, shapes, labels, glue=glue, extra_nodes=rng.choice([0, 0, 1, 2]),
+                   p2=0.0 if glue == "hub" else rng.choice([0.0, 0.3, 0.6]))
+        c["decoy"] = rng.random() < 0.4
+        T = rng.choice([0, 1, 1, 2, 2, 3]) if glue != "hub" else rng.choice([1, 2])
         bits = 3 if T <= 2 else 2
         yield dict(c, T=T, phis=_phis(rng, rng.randint(1, 6 if T <= 2 else 3), bits))
     for _ in range(2 if tier == "quick" else 10):
@@ -216,10 +226,18 @@ def impl(case):
     G = _mk_graph(case)
     nodes = list(G.nodes())
     sweep = [[i, j, int(G.edges[i, j]["CoverLabel"].split("-")[-1])] for i, j in G.edges()]
+    decoy = None
+    if case.get("decoy") and case["motifs"]:
+        # a second object alive at the same time: same vertex sets and motif IDs, but every motif is a path
+        dm = [dict(m, edges=[[m["verts"][i], m["verts"][i + 1]] for i in range(len(m["verts"]) - 1)]) for m in case["motifs"]]
+        dcase = dict(case, motifs=dm, insert=[[e[0], e[1], m["id"]] for m in dm for e in m["edges"]])
+        decoy = MessagePassing(_mk_graph(dcase), iterations=max(1, case["T"]))
     mp = MessagePassing(G, iterations=case["T"])
     hist = []
     pure = 1
     for num, den in case["phis"]:
+        if decoy is not None:
+            decoy.theoretical(0.375)
         before = _snapshot(G)
         hist.append(_frac(mp.theoretical(num / den)))
         if _snapshot(G) != before:
